@@ -147,7 +147,7 @@ func structField(a AV, name string) AV {
 		return nil
 	}
 	for i := 0; i < st.NumFields(); i++ {
-		if st.Field(i).Name() == name {
+		if fieldName(st.Field(i)) == name {
 			return sv.Fields[i]
 		}
 	}
@@ -503,7 +503,7 @@ func controlPayloadBounded(p *Program, fn *ssa.Function, v ssa.Value) (bool, str
 				return true, "nil payload"
 			}
 		case *ssa.Slice:
-			if fa, ok := x.X.(*ssa.FieldAddr); ok && fieldOf(fa).Name() == "readControlBuf" {
+			if fa, ok := x.X.(*ssa.FieldAddr); ok && fieldName(fieldOf(fa)) == "readControlBuf" {
 				if arr, ok := derefType(fa.Type()).Underlying().(*types.Array); ok && arr.Len() <= 125 {
 					return true, "slice of Conn.readControlBuf ([" + fmt.Sprint(arr.Len()) + "]byte)"
 				}
@@ -608,7 +608,7 @@ func c02frag(p *Program, r *Report, rule string) {
 		switch fname {
 		case "msgWriter.reset":
 			// from the typ parameter
-			ok = valueDerives(fa.Store.Val, func(v ssa.Value) bool { pr, isP := v.(*ssa.Parameter); return isP && pr.Name() == "typ" }, 3)
+			ok = valueDerives(fa.Store.Val, func(v ssa.Value) bool { pr, isP := v.(*ssa.Parameter); return isP && paramName(pr) == "typ" }, 3)
 		case "msgWriter.write":
 			c, isC := fa.Store.Val.(*ssa.Const)
 			ok = isC && c.Value != nil && c.Value.ExactString() == "0"
